@@ -9,14 +9,19 @@ package mod
 // driven through its public API (NewDagReader / Read / CtxReadFull / Seek / WriteTo / Size).
 //
 //	replay: TLC-generated behaviours (GenSeekReader) are run on a fresh reader for every DAG
-//	        variant (importer layout x leaf kind x chunk size, modifier-produced DAGs) and API
-//	        variant; every returned n / bytes / EOF / error / offset is compared with the step.
-//	record: random 30-op histories on files up to 2 MiB, logged for TraceSeekReader.
+//	        variant (importer layout x leaf kind x chunk size, modifier-produced DAGs); every
+//	        returned n / bytes / EOF / error / offset is compared with the step.  The read calls
+//	        of a behaviour name their API and context: Read, CtxReadFull with a context that stays
+//	        alive ("bg"), CtxReadFull with a context of its own that is cancelled right after the
+//	        call has returned ("after").
+//	record: random 30-op histories on files up to 2 MiB, logged for TraceSeekReader; CtxReadFull
+//	        also with a context that is already cancelled ("before").
 
 import (
 	"bytes"
 	"context"
 	"encoding/json"
+	"errors"
 	"fmt"
 	"io"
 	"math/rand"
@@ -35,7 +40,8 @@ import (
 )
 
 type c09Step struct {
-	Op   string `json:"op"`
+	Op   string `json:"op"` // "Read" | "CtxReadFull" | "Seek" | "WriteTo"
+	Cx   string `json:"cx"` // context of a read call: "own" (Read) | "bg" | "after"
 	K    int    `json:"k"`
 	O    int    `json:"o"`
 	W    int    `json:"w"`
@@ -204,7 +210,7 @@ func c09Reader(ds ipld.DAGService, root ipld.Node) (uio.DagReader, error) {
 }
 
 // c09Run applies the steps of one behaviour to a fresh reader; returns "" or (step, what).
-func c09Run(ds ipld.DAGService, d *c09Dag, b *c09Beh, api int) (int, string) {
+func c09Run(ds ipld.DAGService, d *c09Dag, b *c09Beh) (int, string) {
 	r, err := c09Reader(ds, d.root)
 	if err != nil {
 		return 0, "NewDagReader: " + err.Error()
@@ -214,7 +220,7 @@ func c09Run(ds ipld.DAGService, d *c09Dag, b *c09Beh, api int) (int, string) {
 		return 0, fmt.Sprintf("Size()=%d want %d", r.Size(), b.Size)
 	}
 	for i, st := range b.Steps {
-		if what := c09Apply(r, d.content, st, api, i); what != "" {
+		if what := c09Apply(r, d.content, st); what != "" {
 			return i + 1, what
 		}
 	}
@@ -230,19 +236,42 @@ func c09EofAllowed(eofs []bool, got bool) bool {
 	return false
 }
 
+// c09CallCtx returns the context for one CtxReadFull call and what the caller does with it afterwards.
+func c09CallCtx(cx string) (context.Context, func(), bool) {
+	switch cx {
+	case "bg":
+		return context.Background(), func() {}, true
+	case "after": // the caller's own context, released as soon as the call has returned
+		ctx, cancel := context.WithCancel(context.Background())
+		return ctx, cancel, true
+	case "before": // already cancelled when the call is made
+		ctx, cancel := context.WithCancel(context.Background())
+		cancel()
+		return ctx, func() {}, true
+	}
+	return nil, nil, false
+}
+
 // c09Apply performs one call and compares every observable with the step's expectation.
-// api: 0 = Read, 1 = CtxReadFull, 2 = alternate by step index.
-func c09Apply(r uio.DagReader, content []byte, st c09Step, api int, idx int) string {
+func c09Apply(r uio.DagReader, content []byte, st c09Step) string {
 	switch st.Op {
-	case "Read":
+	case "Read", "CtxReadFull":
 		buf := make([]byte, st.K)
 		var n int
 		var err error
-		name := "Read"
-		if api == 1 || (api == 2 && idx%2 == 1) {
-			name = "CtxReadFull"
-			n, err = r.CtxReadFull(context.Background(), buf)
+		name := st.Op
+		if st.Op == "CtxReadFull" {
+			ctx, after, ok := c09CallCtx(st.Cx)
+			if !ok || st.Cx == "before" {
+				return "behaviour with unknown context " + st.Cx
+			}
+			name = "CtxReadFull[" + st.Cx + "]"
+			n, err = r.CtxReadFull(ctx, buf)
+			after()
 		} else {
+			if st.Cx != "own" {
+				return "Read with context " + st.Cx
+			}
 			n, err = r.Read(buf)
 		}
 		if err != nil && err != io.EOF {
@@ -422,11 +451,9 @@ func c09Replay(t *testing.T) {
 					if d.skip != "" {
 						continue
 					}
-					for api := 0; api < 3; api++ {
-						if step, what := c09Run(ds, d, &b, api); what != "" {
-							res = M{"i": i, "ok": false, "step": step, "what": fmt.Sprintf("[%s api=%d] %s", d.v, api, what)}
-							break loop
-						}
+					if step, what := c09Run(ds, d, &b); what != "" {
+						res = M{"i": i, "ok": false, "step": step, "what": fmt.Sprintf("[%s] %s", d.v, what)}
+						break loop
 					}
 				}
 			}
@@ -434,7 +461,14 @@ func c09Replay(t *testing.T) {
 		}(i)
 	}
 	wg.Wait()
+	failures := 0
 	for _, r := range results {
+		if r["ok"] == false {
+			failures++
+			if failures > 25 { // one broken call site fails hundreds of behaviours: report the first 25
+				r = M{"i": r["i"], "ok": true, "note": "failure not reported (more than 25)"}
+			}
+		}
 		vEmit(r)
 	}
 	vEmit(M{"summary": true, "n": len(raws), "dags": len(vars) * (maxSize + 1), "unusable": extra})
@@ -565,24 +599,30 @@ func c09RandomOps(rng *rand.Rand, r uio.DagReader, content []byte, chunk int, no
 				k = 1 << 20
 			}
 			buf := make([]byte, k)
-			api := "Read"
+			api, cx := "Read", "own"
 			var n int
 			var err error
 			if rng.Intn(2) == 0 {
 				api = "CtxReadFull"
-				n, err = r.CtxReadFull(context.Background(), buf)
+				cx = []string{"bg", "after", "after", "after", "before"}[rng.Intn(5)]
+				ctx, after, _ := c09CallCtx(cx)
+				n, err = r.CtxReadFull(ctx, buf)
+				after()
 			} else {
 				n, err = r.Read(buf)
 			}
 			e := ""
 			if err != nil && err != io.EOF {
 				e = err.Error()
+				if errors.Is(err, context.Canceled) {
+					e = "ctx"
+				}
 			}
 			ok := pre >= 0 && pre+n <= size && bytes.Equal(buf[:n], content[pre:pre+n])
 			if n == 0 {
 				ok = true
 			}
-			vEmit(M{"ev": "Read", "api": api, "k": k, "n": n, "eof": err == io.EOF, "err": e, "pre": pre, "post": c09Pos(r), "dataOK": ok})
+			vEmit(M{"ev": "Read", "api": api, "cx": cx, "k": k, "n": n, "eof": err == io.EOF, "err": e, "pre": pre, "post": c09Pos(r), "dataOK": ok})
 		case op < 9:
 			w := rng.Intn(3)
 			// target anywhere in [-2, size+2], biased to chunk boundaries and the ends
